@@ -11,6 +11,11 @@ Sync(client) == client.sock is None or (socket open and nothing of the answer is
       uniqueness of the first split), nothing read at all with noreply, the batch sent once in one piece;
       every Exception exit: the socket was closed and dropped (so the next call reconnects - C06) unless the call failed
       before any I/O, in which case the connection is untouched and still in sync.
+  _fetch_cmd / _extract_value (single-key get / gets / gat / gats; reply = item blocks + one terminal line, see C04):
+      normal exit: the whole reply and nothing else was consumed; Exception exit (or a failure swallowed by ignore_exc):
+      the socket was closed and dropped.
+  set / add / replace / append / prepend / cas and get / gets / gat / gats on top of those contracts: Sync at the
+      exchange and at every exit; the exchange is asked to wait for a reply iff the method did not ask for noreply.
   delete / incr / decr / touch / flush_all: the command text carries the noreply marker iff the method does not wait
       for a reply (same truthiness guards both), Sync at the exchange and at every exit.
 The induction over call sequences (Sync at every public exit => no call reads another call's reply) is the standard
@@ -23,8 +28,7 @@ TRUSTED = ["reader contracts of C03 (_readline/_readsegment/_readvalue) used at 
            "meta-lemma C01.compose: Sync at every public exit => every byte a call parses answers its own commands"]
 ASSUMPTIONS = ["the server answers a command that does not carry the noreply marker with exactly one terminator-ended unit",
                "faults are Exception-class (asynchronous interruptions are C10)"]
-NOT_COVERED = ["_fetch_cmd / _extract_value and the get family, stats, cache_memlimit (exchange function not yet mechanised)",
-               "set/add/replace/append/prepend/cas/set_many/delete_many/version/quit/shutdown wrappers around the verified exchange functions",
+NOT_COVERED = ["multi-key fetches (get_many / gets_many), stats, cache_memlimit; set_many's wrapper; version / quit / shutdown wrappers",
                "raw_command with a caller-chosen end token (unit boundary is whatever the caller says)",
                "PooledClient / HashClient wrappers: C09 shows a failed pooled client is destroyed and closed; HashClient pending",
                "'never blocks' beyond 'performs no read': termination is not decided by this family"]
@@ -37,3 +41,6 @@ def build(E, tier):
     cm.verify_store_cmd(E, "C01", "exception", flag_kinds=("none", "int"))
     cm.verify_public_misc(E)
     cm.verify_delete_many(E)
+    cm.verify_fetch_cmd(E, names=("get", "gets", "gat", "gats") if tier == "thorough" else ("get", "gats"))
+    cm.verify_public_store(E)
+    cm.verify_public_fetch(E)
